@@ -115,7 +115,9 @@ def one_run(res, seed, idx, cancel_at, phase, job_bias, pressure=None):
 
         def script(loop):
             if phase == 'initial_reorg' and not state.get('switched') and w.bp.state is not None \
-                    and w.bp.state.height >= 2:
+                    and w.bp.state.height >= 2 and w.bp.state.height >= d.tip.height - 3:
+                # (only once the server's tip is inside the undo window of the daemon's height: a fork
+                # below the window during initial sync is fatal by design and outside C03/C15)
                 # the daemon reorganises between two polls of the initial catch-up: the first batch is
                 # being advanced (nothing flushed yet); the next poll's first block will not connect
                 state['switched'] = True
